@@ -116,6 +116,18 @@ def make_tree(root, rng, variant):
         files["nested/%s/go.mod" % dn] = "module example.com/dup\n\ngo 1.21\n"
         files["nested/%s/run.go" % dn] = "package dup\n\nfunc Run(a int) int {\n\t%s\n}\n" % bodyk
         must.add("nested/%s/run.go" % dn)
+    # files that the go tool does NOT place in the package of their directory on this platform, next to ordinary
+    # files of that package: other-OS files (cannot be analysed here: must carry an error) and a build-ignored
+    # generator program
+    files["plat/plat.go"] = "package plat\n\nfunc Common(a int) int { return a + 1 }\n\nfunc Other(a int) int {\n\tfor i := 0; i < a; i++ {\n\t\ta += i\n\t}\n\treturn a\n}\n"
+    files["plat/sys_windows.go"] = "package plat\n\nfunc WinOnly(a int) int { return a * 3 }\n\nfunc WinHelper() string { return \"w\" }\n"
+    files["plat/sys_darwin.go"] = "package plat\n\nfunc MacOnly(a int) int { return a * 5 }\n"
+    files["plat/never.go"] = "//go:build neverset\n\npackage plat\n\nfunc Never(a int) int { return a - 7 }\n"
+    files["plat/gen.go"] = ("//go:build ignore\n\npackage main\n\nimport \"os\"\n\nfunc emit(n int) int {\n\tif n > 3 {\n\t\tos.Exit(2)\n\t}\n\treturn n\n}\n\n"
+                            "func main() {\n\tprintln(emit(len(os.Args)))\n}\n")
+    must |= {"plat/plat.go", "plat/sys_windows.go", "plat/sys_darwin.go", "plat/never.go", "plat/gen.go"}
+    # (inside a directory that holds another package the go tool gives no package for the ignored program either)
+    bad |= {"plat/sys_windows.go", "plat/sys_darwin.go", "plat/never.go", "plat/gen.go"}
     if variant % 2 == 1:
         # an uncompilable package: every file of it is unanalysable
         files["broken/ok.go"] = "package broken\n\nfunc Fine() int { return 1 }\n"
